@@ -1,6 +1,7 @@
 package dst
 
 import (
+	"strings"
 	"fmt"
 	"sort"
 
@@ -29,6 +30,16 @@ func (w *World) onObservation(inc *Inc, o *raft.Observation) {
 		return
 	}
 	switch d := o.Data.(type) {
+	case raft.PeerObservation:
+		// replication to that peer starts over (or stops): a new walk begins at the leader's last index
+		if pn := w.nodeByID(d.Peer.ID); pn != nil {
+			prefix := fmt.Sprintf("%d#%d>%d@", inc.node.idx, inc.n, pn.idx)
+			for k := range w.or.backoff {
+				if strings.HasPrefix(k, prefix) {
+					delete(w.or.backoff, k)
+				}
+			}
+		}
 	case raft.RaftState:
 		prev := raft.Follower
 		if k := len(inc.obsStates); k > 0 {
